@@ -36,6 +36,8 @@ def bootstrap():
         import sitecustomize  # noqa: F401
     if LIB not in sys.path:
         sys.path.insert(0, LIB)
+    os.environ.pop('VT_SCRATCH_RUN', None)
+    _run_root()
 
 
 def child_env(extra=None):
@@ -54,9 +56,28 @@ def child_env(extra=None):
     return env
 
 
+def _run_root():
+    """One scratch root per check run, removed when the main process exits
+    (pool workers leave through os._exit, so their own atexit hooks never
+    run; they inherit the root through the environment)."""
+    root = os.environ.get('VT_SCRATCH_RUN')
+    if root and os.path.isdir(root):
+        return root
+    root = tempfile.mkdtemp(prefix='vtrun-%d-' % os.getpid(), dir=_SCRATCH_ROOT)
+    os.environ['VT_SCRATCH_RUN'] = root
+    import atexit
+    owner = os.getpid()
+
+    def _clean():
+        if os.getpid() == owner:
+            shutil.rmtree(root, ignore_errors=True)
+    atexit.register(_clean)
+    return root
+
+
 def scratch(prefix='vt'):
     return tempfile.mkdtemp(prefix='%s-%d-' % (prefix, os.getpid()),
-                            dir=_SCRATCH_ROOT)
+                            dir=_run_root())
 
 
 def rmtree(path):
